@@ -892,6 +892,8 @@ def gen_psf_table():
 FORWARD_SCOPE = {'C02': ['aperture/core.py', 'aperture/photometry.py', 'aperture/mask.py'],
                  'C04': ['segmentation/detect.py', 'segmentation/finder.py'],
                  'C12': ['psf/photometry.py', 'psf/groupers.py'],
+                 'C14': ['detection/peakfinder.py', 'detection/core.py', 'detection/daofinder.py', 'detection/irafstarfinder.py', 'detection/starfinder.py'],
+                 'C17': ['centroids/core.py', 'centroids/gaussian.py'],
                  'C15': ['aperture/photometry.py', 'aperture/stats.py', 'psf/photometry.py', 'background/background_2d.py', 'utils/errors.py'],
                  'C16': ['aperture/stats.py'],
                  'C18': ['datasets/images.py', 'psf/photometry.py', 'psf/utils.py'],
